@@ -379,7 +379,7 @@ PROPS = {
         "jobs": c19_jobs,
         "exhaustive": lambda tier: True,
         "rule": "names: reference predicates written from the documentation of FileName, Path and FilePath, differential against the constructors over ALL byte strings of length <= 2 (quick) / <= 3 (thorough, 16.8 M per type) plus structured random strings up to 300 bytes (separators, dots, NUL, non-ASCII, maximum length +-1): accepted iff allowed, accepted names round-trip, an accepted file name cannot denote a location outside the root; mutation closure: from every accepted value of length <= 2 each of 12 mutating operations with 8 argument bytes yields a valid value or fails without changing it. Isolation: three domains (prefix P+'a' vs P+'ab' in one root; P+'a' again in a nested root) each run a node + publish-subscribe service in its own process: every created file lies under the domain's root with its prefix or is a /dev/shm object carrying the prefix; node and service listings of each domain show exactly its own; after one owner is killed, cleanup runs in the other domains neither see nor remove the dead node or any foreign file, the domain's own cleanup succeeds. Non-trivial = a random long string / an isolation query; exhaustive=true refers to the byte-string box.",
-        "assumptions": ["Linux rules (the platform-independent forbidden set is enforced on Linux too)", "service and node names are plain ASCII strings stored in a fixed-size string, their validation is the string's (covered by C16)"],
+        "assumptions": ["Linux rules (the platform-independent forbidden set is enforced on Linux too)", "service and node names: a reference predicate (non-empty, no iox2:// prefix, code points 1..=127, length <= 255 for services; code points 1..=127, length <= 128 for nodes) is compared with ServiceName::new / NodeName::new over all strings of length <= 2 of a 15-character alphabet (separators, dots, NUL, newline, DEL, non-ASCII) and random strings around the length limits; accepted names read back unchanged"],
         "floor": (100000, 100),
     },
     "C20": {
